@@ -334,7 +334,16 @@ def main():
         dep = ['gu'] if (given < 2 and 'Vec<T>' in dflt_u and vec_param == 'T') else []
         if 'gu' in dep and given < 3 and 'U' in dflt_v:
             dep.append('gv')                 # V's default mentions the unsubstituted U
+        # const applied to an array type through an alias (const U with U = T[2]) is printed as '(const **)[2]': a recorded finding, judged apart
+        carr = ['gv'] if (given == 1 and dflt_u == 'T[2]' and 'const U' in dflt_v) else []
         okG = True
+        if carr and 'gv' not in dep:
+            ok_, el = gxx_ok(carr)
+            if not ok_:
+                okG = False
+                ck.spec_failure('print:const-array-through-alias', 'const applied to an array type through an alias is printed with a leading const inside the parentheses: ' + asserts['gv'][:160],
+                                dict(rp, asserts=[asserts['gv']]))
+            dep = dep + carr
         ok_, el = gxx_ok([n_ for n_ in asserts if n_ not in dep])
         if not ok_:
             okG = False
